@@ -181,8 +181,27 @@ class Gen(object):
     # --- statements ---
     def statement(self):
         rng = self.rng
-        r = rng.randrange(26)
-        if r == 0:
+        r = rng.randrange(30)
+        if r >= 26:
+            # a number literal followed by a blank and a keyword (ELSE, EQV, AND, TO, STEP, THEN ...): the
+            # reader of decimal literals must stop before the keyword in every capitalisation
+            q = rng.randrange(4)
+            if q == 0:
+                self.kw(b'IF'); self.sp(); self.name(rng.choice([b'A', b'X'])); self.sp(); self.kw(b'THEN'); self.sp()
+                self.name(b'X'); self.op(b'='); self.number(); self.sp(); self.emit(['else']); self.sp()
+                self.name(b'X'); self.op(b'='); self.number()
+            elif q == 1:
+                self.kw(b'PRINT'); self.sp(); self.number()
+                for _ in range(rng.randrange(1, 4)):
+                    self.sp(); self.kw(rng.choice(WORD_OPS)); self.sp(); self.number()
+            elif q == 2:
+                self.kw(b'FOR'); self.sp(); self.name(b'I'); self.op(b'='); self.number(); self.sp(); self.kw(b'TO')
+                self.sp(); self.number(); self.sp(); self.kw(b'STEP'); self.sp(); self.number()
+            else:
+                self.kw(b'IF'); self.sp(); self.name(b'X'); self.op(b'='); self.number(); self.sp(); self.kw(b'THEN')
+                self.sp(); self.kw(b'PRINT'); self.sp(); self.number(); self.sp(); self.emit(['else']); self.sp()
+                self.kw(b'PRINT'); self.sp(); self.number(); self.sp(); self.kw(b'EQV'); self.sp(); self.number()
+        elif r == 0:
             self.kw(b'PRINT'); self.sp(); self.expr()
             if rng.random() < 0.4:
                 self.p(rng.choice([b';', b','])); self.expr()
